@@ -37,9 +37,18 @@ Definition call_fname (c : str) : str := fst (span (fun ch => negb (Ascii.eqb ch
 
 Definition is_raised (res : sx) (e : exn) : bool := sx_eqb res (sx_raised e).
 
+(* d lists one value per parameter of f, keyed by the parameters' current names or by their original names (the
+   property does not say which), and these are the values of the invocation whose call string is tgt *)
+Definition kwargs_by (key : str * str -> str) (f : pfunc) (d : alist) (tgt : str) : bool :=
+  match optM (fun po : str * str => option_map (fun v => (snd po, v)) (aget d (key po))) (params f) with
+  | Some args => str_eqb (Sym.app (fname f) args) tgt
+  | None => false
+  end.
+Definition kwargs_are (f : pfunc) (d : alist) (tgt : str) : bool :=
+  kwargs_by fst f d tgt || kwargs_by snd f d tgt.
+
 (* the note names the failing function and carries exactly the keyword arguments of the failing invocation:
-   one value per parameter (keys = the function's CURRENT parameter names, any order), and these values are
-   the ones of the invocation `tgt` (whose call string lists them under the ORIGINAL names) *)
+   one value per parameter (any order), the values of the invocation `tgt` *)
 Definition note_ok (f : pfunc) (nt : sx) (tgt : str) : bool :=
   match nt with
   | SL [SS t; SS n; kws] =>
@@ -47,16 +56,12 @@ Definition note_ok (f : pfunc) (nt : sx) (tgt : str) : bool :=
       && match un_alist kws with
          | None => false
          | Some d =>
-             (length d =? length (params f)) && nodup_strb (akeys d)
-             && match optM (fun po : str * str => option_map (fun v => (snd po, v)) (aget d (fst po))) (params f) with
-                | Some args => str_eqb (Sym.app (fname f) args) tgt
-                | None => false
-                end
+             (length d =? length (params f)) && nodup_strb (akeys d) && kwargs_are f d tgt
          end
   | _ => false
   end.
 
-(* the snapshot: function = the failing one, kwargs (ORIGINAL names) = those of the failing invocation, the stored
+(* the snapshot: function = the failing one, kwargs = those of the failing invocation, the stored
    exception and both reproduce() outcomes (before / after save_to_file + load_from_file) = the exception raised *)
 Definition snap_ok (f : pfunc) (sn : sx) (tgt : str) (e : exn) : bool :=
   match sn with
@@ -65,11 +70,7 @@ Definition snap_ok (f : pfunc) (sn : sx) (tgt : str) (e : exn) : bool :=
       && match un_alist kws with
          | None => false
          | Some d =>
-             (length d =? length (params f)) && nodup_strb (akeys d)
-             && match optM (fun po : str * str => option_map (fun v => (snd po, v)) (aget d (snd po))) (params f) with
-                | Some args => str_eqb (Sym.app (fname f) args) tgt
-                | None => false
-                end
+             (length d =? length (params f)) && nodup_strb (akeys d) && kwargs_are f d tgt
          end
       && sx_eqb ex (sx_exn e) && sx_eqb r1 (sx_exn e) && sx_eqb r2 (sx_exn e)
   | _ => false
